@@ -57,6 +57,12 @@ def column(X, j):
     return np.array([r[j] for r in X], dtype=float)
 
 
+def eff_grid(case):
+    """the grid the model under test effectively sees: a missing grid value is imputed by the predict function (FILL = 7)"""
+    gn = case.get("grid_null")
+    return [7.0 if i == gn else g for i, g in enumerate(case["grid"])]
+
+
 class C16(Prop):
     id = "C16"
     unique_answer = True
@@ -115,7 +121,12 @@ class C16(Prop):
                 rows = [[v if q == j else v + 200 for q, v in enumerate(r)] for r in rows]
                 grid = [int(abs(g)) % 100 for g in grid]
                 gcont = "np_i8"
-            yield {"stream": "pd", "container": container, "rows": rows, "j": j, "k": kk, "grid": grid,
+            grid_null = None
+            if container in ("polars_float", "polars_int") and rng.random() < 0.3:
+                # a polars grid with a missing value (compute_marginal hands over such a grid for a feature with nulls) and a model
+                # that imputes nulls: the null must reach the predict function as a null, not as NaN
+                gcont, grid_null = "polars", rng.randrange(ng)
+            yield {"stream": "pd", "container": container, "rows": rows, "j": j, "k": kk, "grid": grid, "grid_null": grid_null,
                    "grid_container": gcont, "w": w, "n_max": nmax, "seed": seed, "int_pred": rng.random() < 0.3,
                    "pred_ret": rng.choice(["np", "np", "polars", "list_np"]),
                    # a model that is not defined everywhere: NaN for the rows whose other column equals nan_k at ONE grid value
@@ -154,7 +165,7 @@ class C16(Prop):
         elif case["grid_container"] == "np_i8":
             grid = np.array(grid, dtype=np.int8)
         elif case["grid_container"] == "polars":
-            grid = pl.Series([float(g) for g in grid])
+            grid = pl.Series([None if i == case.get("grid_null") else float(g) for i, g in enumerate(grid)], dtype=pl.Float64)
         elif case["grid_container"] == "polars_named":
             # a named Series: called like ANOTHER column of X (or like nothing in X) - only its values matter
             ncol_ = len(case["rows"][0])
@@ -166,7 +177,11 @@ class C16(Prop):
         shown = []
         aliased = []
 
+        FILL = 7.0  # what the model under test imputes for a missing feature value
+
         def pred(Xs):
+            if case.get("grid_null") is not None and isinstance(Xs, pl.DataFrame):
+                Xs = Xs.with_columns(Xs[:, j].cast(pl.Float64).fill_null(FILL).alias(Xs.columns[j]))
             xj, xk = column(Xs, j), column(Xs, k)
             ncol = len(case["rows"][0])
             shown.append([column(Xs, q).tolist() for q in range(ncol)])
@@ -178,7 +193,7 @@ class C16(Prop):
             if case.get("nan_rule"):
                 nr = case["nan_rule"]
                 val = np.asarray(val, dtype=float)
-                val[(xk == float(nr["k_val"])) & (xj == float(Fraction(case["grid"][nr["gi"]])))] = np.nan
+                val[(xk == float(nr["k_val"])) & (xj == float(Fraction(eff_grid(case)[nr["gi"]])))] = np.nan
             if case.get("int_pred") and not case.get("nan_rule") and np.all(val == np.round(val)):
                 val = val.astype(np.int64)  # a model that predicts whole numbers (counts, classes) as integers
             if case.get("pred_ret") == "polars":
@@ -203,7 +218,7 @@ class C16(Prop):
 
     def model_request(self, case):
         r = {"op": "pd", "X": [enc_list(Fraction(v) for v in row) for row in case["rows"]], "j": case["j"], "k": case["k"],
-             "a": enc(case["a"]), "b": enc(case["b"]), "c": enc(case["c"]), "grid": enc_list(Fraction(g) for g in case["grid"]),
+             "a": enc(case["a"]), "b": enc(case["b"]), "c": enc(case["c"]), "grid": enc_list(Fraction(g) for g in eff_grid(case)),
              "w": None if case["w"] is None else enc_list(Fraction(v) for v in case["w"])}
         sub = self.subsample(case)
         if sub is not None:
@@ -243,7 +258,7 @@ class C16(Prop):
             if i in nan_at:
                 continue  # an undefined prediction in the block: the average is NaN (checked by the oracle), outside the exact model
             if not close(u, v, 1e-12, 1e-12):
-                return f"partial dependence at grid value {case['grid'][i]}: {u!r}, model {float(v)!r}"
+                return f"partial dependence at grid value {eff_grid(case)[i]}: {u!r}, model {float(v)!r}"
         if "caller_after" in mo:
             want = [[float(v) for v in dec_list(row)] for row in mo["caller_after"]]
             if io["after_rows"] != want:
@@ -263,9 +278,9 @@ class C16(Prop):
         sub = self.subsample(case)
         if sub is not None:
             rows = [rows[i] for i in sub]
-        g = Fraction(case["grid"][nr["gi"]])
+        g = Fraction(eff_grid(case)[nr["gi"]])
         hit = any(r[case["k"]] == nr["k_val"] for r in rows)
-        return {i for i, gv in enumerate(case["grid"]) if hit and Fraction(gv) == g}
+        return {i for i, gv in enumerate(eff_grid(case)) if hit and Fraction(gv) == g}
 
     @staticmethod
     def refusal_ok(case, io):
@@ -287,7 +302,7 @@ class C16(Prop):
         n = len(rows)
         j, k, a, b, c = case["j"], case["k"], case["a"], case["b"], case["c"]
         nan_at = self.nan_positions(case)
-        for gi, g in enumerate(case["grid"]):
+        for gi, g in enumerate(eff_grid(case)):
             if gi in nan_at:
                 if not math.isnan(io["pd"][gi]):
                     return (f"value at grid point {float(Fraction(g))} is {io['pd'][gi]!r} although the predict function is NaN for some of the rows "
@@ -309,7 +324,7 @@ class C16(Prop):
             if len(col) != n * ng:
                 return f"predict function saw {len(col)} rows, expected {n * ng}"
             for t, v in enumerate(col):
-                want = float(Fraction(case["grid"][t // n])) if q == j else float(rows[t % n][q])
+                want = float(Fraction(eff_grid(case)[t // n])) if q == j else float(rows[t % n][q])
                 if v != want:
                     return f"stacked matrix row {t} column {q} is {v}, expected {want}"
         return None
@@ -328,7 +343,9 @@ class C16(Prop):
                 yield c
         if len(case["grid"]) > 1:
             for i in range(len(case["grid"])):
-                yield {**case, "grid": case["grid"][:i] + case["grid"][i + 1:]}
+                gn = case.get("grid_null")
+                yield {**case, "grid": case["grid"][:i] + case["grid"][i + 1:], "nan_rule": None,
+                       "grid_null": None if gn is None or gn == i else (gn - 1 if gn > i else gn)}
 
 
 PROP = C16
